@@ -6,5 +6,11 @@ FilesC == {"a", "a2", "callee", "b", "out"}
 RepoOfC == [f \in FilesC |-> CASE f \in {"a", "a2", "callee"} -> "repo" [] f = "b" -> "repo-b" [] OTHER -> "none"]
 ProgC == [f \in FilesC |-> IF f \in {"a", "a2"} THEN <<<<"use", "callee">>>> ELSE IF f = "callee" THEN <<<<"reg", "callee">>>> ELSE <<>>]
 NamePrefixC == {<<"repo", "repo-b">>}
+InsideC == {}
+\* nested layout: repository "inner" lies in a sub-directory of "repo"
+FilesN == {"a", "callee", "in", "b"}
+RepoOfN == [f \in FilesN |-> CASE f \in {"a", "callee"} -> "repo" [] f = "in" -> "inner" [] OTHER -> "repo-b"]
+ProgN == [f \in FilesN |-> IF f \in {"a", "in"} THEN <<<<"use", "callee">>>> ELSE IF f = "callee" THEN <<<<"reg", "callee">>>> ELSE <<>>]
+InsideN == {<<"inner", "repo">>}
 SpecInit == Init /\ [][FALSE]_vars
 =============================================================================
